@@ -214,52 +214,67 @@ let fault_of k code : (M.n * M.n) option =
 (* ---------- operations ---------- *)
 let run_case (toks : sx list) : string =
   match toks with
-  (* enc T VAL: size, status, bytes, pushed handles (ListWriter) *)
+  (* enc T VAL: size, status, bytes (ListWriter, identity handle references),
+     and the bytes of the documented format (spec_enc) *)
   | [A "enc"; A tid; v] ->
       let t = ty_named tid and v = val_of v in
       let ok = M.has_type t v in
       let sz = M.tsize t v in
-      (match M.serialize t v M.lw_ops ([], []) with
-       | M.Ok ((), (bs, hs)) ->
-           Printf.sprintf "typed=%b size=%s st=0 bytes=%s handles=%s" ok (string_of_n sz)
-             (hex_of_bytes bs) (string_of_zlist hs)
-       | M.Err (e, (bs, hs)) ->
-           Printf.sprintf "typed=%b size=%s st=%s bytes=%s handles=%s" ok (string_of_n sz)
-             (string_of_n e) (hex_of_bytes bs) (string_of_zlist hs))
-  (* dec T HEX HANDLES: status, value, bytes consumed (ListReader) *)
-  | [A "dec"; A tid; A hex; A hs] ->
+      let spec = if ok then hex_of_bytes (M.spec_enc t v) else "?" in
+      (match M.serialize t v M.lw_ops [] with
+       | M.Ok ((), bs) ->
+           Printf.sprintf "typed=%b size=%s st=0 bytes=%s spec=%s nohandles=%b" ok (string_of_n sz)
+             (hex_of_bytes bs) spec (M.no_handles t)
+       | M.Err (e, bs) ->
+           Printf.sprintf "typed=%b size=%s st=%s bytes=%s spec=%s nohandles=%b" ok (string_of_n sz)
+             (string_of_n e) (hex_of_bytes bs) spec (M.no_handles t))
+  (* dec T HEX: status, value, bytes consumed (ListReader) *)
+  | A "dec" :: A tid :: A hex :: _ ->
       let t = ty_named tid in
       let bs = bytes_of_hex hex in
-      (match M.dec t M.lr_ops (bs, zlist_of hs) with
-       | M.Ok (v, (rest, _)) ->
+      (match M.dec t M.lr_ops bs with
+       | M.Ok (v, rest) ->
            Printf.sprintf "st=0 val=%s consumed=%d" (string_of_val v)
              (List.length bs - List.length rest)
+       | M.Err (e, _) -> Printf.sprintf "st=%s" (string_of_n e))
+  (* tenc / tdec: table-based out-of-band handle channel *)
+  | [A "tenc"; A tid; v] ->
+      let t = ty_named tid and v = val_of v in
+      (match M.serialize t v M.tlw_ops ([], []) with
+       | M.Ok ((), (bs, hs)) -> Printf.sprintf "st=0 bytes=%s handles=%s" (hex_of_bytes bs) (string_of_zlist hs)
+       | M.Err (e, (bs, hs)) -> Printf.sprintf "st=%s bytes=%s handles=%s" (string_of_n e) (hex_of_bytes bs) (string_of_zlist hs))
+  | [A "tdec"; A tid; A hex; A hs] ->
+      let t = ty_named tid in
+      let bs = bytes_of_hex hex in
+      (match M.dec t M.tlr_ops (bs, zlist_of hs) with
+       | M.Ok (v, (rest, _)) ->
+           Printf.sprintf "st=0 val=%s consumed=%d" (string_of_val v) (List.length bs - List.length rest)
        | M.Err (e, _) -> Printf.sprintf "st=%s" (string_of_n e))
   (* fenc T K CODE VAL: serialize over the instrumented writer with a fault *)
   | [A "fenc"; A tid; A k; A code; v] ->
       let t = ty_named tid and v = val_of v in
-      let st0 = M.inst_make ([], []) (fault_of k code) in
+      let st0 = M.inst_make [] (fault_of k code) in
       (match M.serialize t v (M.inst_wops M.lw_ops) st0 with
        | M.Ok ((), st) -> Printf.sprintf "st=0 calls=%d log=%s" (List.length st.M.i_log) (pr_log st.M.i_log)
        | M.Err (e, st) -> Printf.sprintf "st=%s calls=%d log=%s" (string_of_n e) (List.length st.M.i_log) (pr_log st.M.i_log))
   (* fdec T K CODE HEX HANDLES *)
-  | [A "fdec"; A tid; A k; A code; A hex; A hs] ->
+  | A "fdec" :: A tid :: A k :: A code :: A hex :: _ ->
       let t = ty_named tid in
-      let st0 = M.inst_make (bytes_of_hex hex, zlist_of hs) (fault_of k code) in
+      let st0 = M.inst_make (bytes_of_hex hex) (fault_of k code) in
       (match M.dec t (M.inst_rops M.lr_ops) st0 with
        | M.Ok (v, st) -> Printf.sprintf "st=0 val=%s calls=%d log=%s" (string_of_val v) (List.length st.M.i_log) (pr_log st.M.i_log)
        | M.Err (e, st) -> Printf.sprintf "st=%s calls=%d log=%s" (string_of_n e) (List.length st.M.i_log) (pr_log st.M.i_log))
   (* encw T CHECKED CAP VAL: buffer writer models *)
   | [A "encw"; A tid; A checked; A cap; v] ->
       let t = ty_named tid and v = val_of v in
-      let w0 = { M.bw_out = []; M.bw_cap = n_of_string cap; M.bw_oob = false; M.bw_handles = [] } in
+      let w0 = { M.bw_out = []; M.bw_cap = n_of_string cap; M.bw_oob = false } in
       (match M.serialize t v (M.bufw_ops (bool_of checked)) w0 with
        | M.Ok ((), w) -> Printf.sprintf "st=0 bytes=%s oob=%b" (hex_of_bytes w.M.bw_out) w.M.bw_oob
        | M.Err (e, w) -> Printf.sprintf "st=%s bytes=%s oob=%b" (string_of_n e) (hex_of_bytes w.M.bw_out) w.M.bw_oob)
   (* decr T HEX HANDLES: buffer reader model *)
-  | [A "decr"; A tid; A hex; A hs] ->
+  | A "decr" :: A tid :: A hex :: _ ->
       let t = ty_named tid in
-      let r0 = { M.br_buf = bytes_of_hex hex; M.br_idx = M.N0; M.br_handles = zlist_of hs } in
+      let r0 = { M.br_buf = bytes_of_hex hex; M.br_idx = M.N0 } in
       (match M.dec t M.bufr_ops r0 with
        | M.Ok (v, r) -> Printf.sprintf "st=0 val=%s consumed=%s" (string_of_val v) (string_of_n r.M.br_idx)
        | M.Err (e, _) -> Printf.sprintf "st=%s" (string_of_n e))
